@@ -7,6 +7,14 @@ def closure_creation(F, fn):
     pf = F.fns.get(fn.j.get("parent"))
     if pf is None:
         return None, None
+    if hasattr(F, "inlined") and pf.kind in ("method", "fn"):
+        # the creating function with its private helpers inlined: captured values resolve through them; and when the creating
+        # function is itself a helper that was inlined into an entry, resolve in that entry's body
+        hosts = [hid for hid, kids in getattr(F, "_inl_children", {}).items() if pf.id in kids]
+        if hosts:
+            pf = F.inlined(F.fns[sorted(hosts)[0]])
+        else:
+            pf = F.inlined(pf)
     for b in pf.blocks:
         for s in b["stmts"]:
             if s["k"] == "assign" and s["rv"]["k"] == "agg" and s["rv"].get("def") == fn.id:
